@@ -201,3 +201,5 @@ def run(ctx, rep):
     rule_pipeline(ctx, rep)
     from rules.c03 import rule_allsources
     rule_allsources(ctx, rep, rid="R-C06-allsources")
+    from rules.c02 import rule_stackend
+    rule_stackend(ctx, rep, rid="R-C06-stackend")
